@@ -190,9 +190,21 @@ type ClientConn struct {
 
 // Connect dials the proxy and completes a crypto/tls handshake offering the given ALPN list.
 func Connect(p *Proxy, alpn []string, remote *net.TCPAddr) (*ClientConn, error) {
+	return ConnectPreamble(p, alpn, remote, nil)
+}
+
+// ConnectPreamble is Connect with octets the client sends ahead of its ClientHello (a PROXY protocol line, say);
+// a TLS server has no use for them and refuses the handshake.
+func ConnectPreamble(p *Proxy, alpn []string, remote *net.TCPAddr, preamble []byte) (*ClientConn, error) {
 	raw, _, err := p.Ln.Dial(DialOpts{Remote: remote})
 	if err != nil {
 		return nil, err
+	}
+	if len(preamble) > 0 {
+		if _, err := raw.Write(preamble); err != nil {
+			raw.Close()
+			return nil, err
+		}
 	}
 	c, err := Handshake(raw, ClientOpts{StdALPN: alpn})
 	if err != nil {
